@@ -53,7 +53,7 @@ def addmm_forward(a:np.ndarray, b:np.ndarray, c:np.ndarray):
     return a + (b @ c)
 
 def addmm_backward(grad:np.ndarray, a:np.ndarray, b:np.ndarray, c:np.ndarray):
-    grad_a, grad_mm = add_backward(grad, a.shape, (b.shape[0], c.shape[1],))
+    grad_a, grad_mm = add_backward(grad, a.shape, np.broadcast_shapes(b.shape[:-2], c.shape[:-2]) + (b.shape[-2], c.shape[-1]))
     grad_b, grad_c = matmul_backward(grad_mm, b, c)
     return grad_a, grad_b, grad_c
 
